@@ -252,10 +252,12 @@ func (f *Frame) externalCall(st *State, x *ssa.Call, callee *ssa.Function, ext *
 			return VT{B.And(B.Eq(a.Len, b2.Len), B.Forall([]*Term{k}, B.Implies(B.And(B.Le(B.Int(0), k), B.Lt(k, a.Len)), B.Eq(B.Select(M, B.Add(a.Ptr, k)), B.Select(M, B.Add(b2.Ptr, k))))))}
 		}
 	case "tz":
-		r := vc.freshValue(f.prefix+x.Name(), resT).(VT)
 		bits, _, _ := intInfo(callee.Params[0].Type())
-		vc.fact(B.And(B.Le(B.Int(0), r.T), B.Le(r.T, B.Int(int64(bits)))))
 		a := args[0].(VT).T
+		fn := fmt.Sprintf("u_tz%d", bits)
+		B.DefineFun(fn, []Sort{SInt}, SInt, "", nil)
+		r := VT{B.App(fn, a)}
+		vc.fact(B.And(B.Le(B.Int(0), r.T), B.Le(r.T, B.Int(int64(bits)))))
 		vc.fact(B.Eq(B.Eq(r.T, B.Int(int64(bits))), B.Eq(a, B.Int(0))))
 		return r
 	}
